@@ -163,7 +163,8 @@ func c18freshProcesses(e cliEntry, args []string) (string, string, string) {
 
 func c18skip(e cliEntry) bool {
 	// svg/text drawing and version are deterministic text too; nothing is skipped except the multi-thread line whose record order is C11's business
-	return e.Name == "compare-trees-threads"
+	// no seed given: the clock is the seed, outside "once a seed is given"
+	return e.Name == "compare-trees-threads" || strings.HasSuffix(e.Name, "-noseed")
 }
 
 func init() {
